@@ -19,7 +19,6 @@ CONSTANTS
   ParserContinuesAfterShortRange = FALSE
   Budget0PlansNothing = FALSE
   TailInitPersistsZero = TRUE
-CONSTRAINT GuardKnown
 INVARIANTS RefinesCex
 VIEW View
 CHECK_DEADLOCK FALSE
